@@ -2,30 +2,30 @@
 PROP = dict(
         module='kernel', pkg='kfmt', pkgname='kfmt', harness=['kfmt/c15_test.go'],
         n=dict(quick=1500, thorough=60000),
+        anchors='C15.json', expr_imports=['Firefly.Gen.C15'],
         nontrivial=r'^F .*\| ok [1-9]',
         rule='one evaluation = one Fprintf call on the real code captured through an io.Writer (F line: replayed through the '
              'Lean model, and the bytes written compared with the spec render) or one testing.AllocsPerRun measurement of the '
              'same call with pre-boxed arguments and a sink that stores nothing (A line); distinct = by hash of the line; '
              'non-trivial = the call wrote at least one chunk',
-        trusted=['the scanner model abstracts the index bookkeeping of Fprintf (blockStart/blockEnd/nextArgIndex) to list '
-                 'traversal: the bounds of format[i] and args[i] are covered by the differential run (all 256 bytes after % '
-                 'and random format bytes), not by a theorem',
-                 'testing.AllocsPerRun / runtime.MemStats for the allocation clause'],
+        trusted=['testing.AllocsPerRun / runtime.MemStats for the allocation clause'],
         assumptions=['64-bit Go int (amd64)', 'sequential use of the package-level scratch buffers numFmtBuf/singleByte',
                      'string and slice lengths fit a Go int; string widths stay in the property domain 0..10^6 '
                      '(the padding count padLen-len(s) wraps in a Go int: theorem wrapped_string_width_quirk)'],
-        level_text='Lean theorems over the model of fmt.go hold for every format, argument list and scratch-buffer content: '
+        level_text='Lean theorems over the model of fmt.go (index-level Fprintf loop with checked format[i]/args[i]/numFmtBuf[i], proved '
+                   'equal to a list-traversal scanner: index_model_refines) hold for every format, argument list and scratch-buffer content: '
                    'fmtInt_in_bounds (every checked index of the in-place algorithm is inside numFmtBuf for all 2^64 magnitudes, '
                    'both signs, every kind, base and width), never_panics (arbitrary format bytes and arguments, width '
                    'accumulated with int wrap-around), exact (bytes written = spec render for every format of the supported '
                    'grammar, incl. missing/surplus/wrong-type markers), magnitude (digit string denotes |v|, valid digits, no '
                    'leading zero), bounded/padded (min(width,31) <= length <= maxBufSize). maxBufSize, len(numFmtBuf) and the '
-                   'marker strings are regenerated from the compiled code; model and spec are compared with the real Fprintf '
+                   'marker strings are regenerated from the compiled code, and the clamp, negation, digit extraction, digit characters, sign-append '
+                   'test, width accumulation and string pad-length expressions are regenerated from the source (tools/exprgen) and proved equal '
+                   'to the model terms (Tie/C15.lean); model and spec are compared with the real Fprintf '
                    'on grammar-directed and random formats.',
         level_note='Partial: the "no heap allocation" clause is MEASURED, not proved (it is a property of the Go 1.23 compiler\'s '
                    'escape analysis): testing.AllocsPerRun over every generated case whose output is <= 4096 bytes, pre-boxed '
                    'arguments, non-allocating sink; a non-zero count is an oracle failure (clause=no-alloc). Trusted: Lean kernel '
                    '(+ propext, Classical.choice, Quot.sound), the theorem statements, the harness (correspondence is differential '
-                   'testing on generated inputs, not a proof about the Go code); the scanner model walks the format as a list '
-                   '(index bookkeeping of Fprintf is covered by correspondence only).',
+                   'testing on generated inputs, not a proof about the Go code).',
 )
